@@ -289,8 +289,8 @@ func Eq(a, b Term) Term {
 	if a.S.K == KReal && a.R != nil && b.R != nil {
 		return TBool(a.R.Cmp(b.R) == 0)
 	}
-	if a.E == b.E && a.S.K != KFP {
-		return TTrue()
+	if a.E == b.E {
+		return TTrue() // SMT equality is reflexive (also for FP: bitwise identity, single NaN)
 	}
 	if a.S.K == KBool {
 		if a.IsTrue() {
@@ -661,9 +661,84 @@ func Int2Real(a Term) Term {
 
 // ---- floating point ------------------------------------------------------------
 
+func fpConstOf(s Sort, f float64) Term {
+	if s.N == 32 {
+		return FP32Const(float32(f))
+	}
+	return FP64Const(f)
+}
+
+func fpVal(t Term) (float64, bool) {
+	if t.S.K != KFP || t.R == nil {
+		return 0, false
+	}
+	f, _ := t.R.Float64()
+	return f, true
+}
+
+func isFPOne(t Term) bool {
+	f, ok := fpVal(t)
+	return ok && f == 1
+}
+
+// FPBin folds operations on finite constants using Go's IEEE arithmetic (A-IEEE) and the
+// exact identities x/1 = x and x*1 = x.
 func FPBin(op string, a, b Term) Term {
 	if !a.S.Eq(b.S) {
 		panic(fmt.Sprintf("fp %s sort mismatch %s vs %s", op, a.S, b.S))
+	}
+	if (op == "fp.div" || op == "fp.mul") && isFPOne(b) {
+		return a
+	}
+	if op == "fp.mul" && isFPOne(a) {
+		return b
+	}
+	if x, ok := fpVal(a); ok {
+		if y, ok := fpVal(b); ok && !(x == 0 && y == 0) {
+			var r float64
+			valid := true
+			if a.S.N == 32 {
+				x32, y32 := float32(x), float32(y)
+				var r32 float32
+				switch op {
+				case "fp.add":
+					r32 = x32 + y32
+				case "fp.sub":
+					r32 = x32 - y32
+				case "fp.mul":
+					r32 = x32 * y32
+				case "fp.div":
+					if y32 == 0 {
+						valid = false
+					} else {
+						r32 = x32 / y32
+					}
+				default:
+					valid = false
+				}
+				r = float64(r32)
+			} else {
+				switch op {
+				case "fp.add":
+					r = x + y
+				case "fp.sub":
+					r = x - y
+				case "fp.mul":
+					r = x * y
+				case "fp.div":
+					if y == 0 {
+						valid = false
+					} else {
+						r = x / y
+					}
+				default:
+					valid = false
+				}
+			}
+			if valid && !math.IsInf(r, 0) && !math.IsNaN(r) && r != 0 {
+				return fpConstOf(a.S, r)
+			}
+		}
 	}
 	return Term{S: a.S, E: "(" + op + " RNE " + a.E + " " + b.E + ")"}
 }
@@ -685,6 +760,18 @@ func FPToFP(a Term, to Sort) Term {
 	return Term{S: to, E: fmt.Sprintf("((_ to_fp %d %d) RNE %s)", eb, sb, a.E)}
 }
 func BVToFP(a Term, signed bool, to Sort) Term {
+	if a.C != nil {
+		v := a.C
+		if signed {
+			v = bvSignedVal(a.C, a.S.N)
+		}
+		if v.Sign() != 0 && v.BitLen() <= 63 {
+			if to.N == 32 {
+				return FP32Const(float32(v.Int64()))
+			}
+			return FP64Const(float64(v.Int64()))
+		}
+	}
 	eb, sb := 8, 24
 	if to.N == 64 {
 		eb, sb = 11, 53
